@@ -361,4 +361,9 @@ def r3(ctx):
     ctx.check(not bad, "C13.R3", sv, "no writer swallows an error", witness=bad)
 
 
-RULES = [("C13.R1", r1), ("C13.R2", r2), ("C13.R3", r3)]
+def r_idioms(ctx):
+    from .common import repo_idioms
+    repo_idioms(ctx, "C13.R4", ('serializable',))
+
+
+RULES = [("C13.R1", r1), ("C13.R2", r2), ("C13.R3", r3), ("C13.R4", r_idioms)]
